@@ -256,7 +256,7 @@ def generate(rng, index, tier):
     nsteps = rng.randint(2, 8)
     while len(steps) < nsteps:
         ops = (['add'] * 22 + ['remove'] * 14 + ['update'] * 5 + ['scan_all'] * 14 + ['scan_one'] * 10 +
-               ['touch'] * 4 + ['create'] * 6 + ['delete'] * 8 + ['rename'] * 5 + ['gc_now'] * 8)
+               ['touch'] * 4 + ['create'] * 6 + ['delete'] * 8 + ['rename'] * 5 + ['gc_now'] * 8 + ['reload'] * 3)
         if not shared:
             ops += ['add'] * 40
         op = rng.choice(ops)
@@ -326,6 +326,9 @@ def generate(rng, index, tier):
                     live.remove(f)
                     live.append(to)
                     steps.append({'op': 'rename', 'file': list(f), 'to': list(to)})
+        elif op == 'reload':
+            steps.append({'op': 'reload'})
+            shared[:] = [list(e['dir']) for e in initial]
         else:
             steps.append({'op': 'gc_now'})
     if rng.random() < 0.3:
@@ -464,6 +467,12 @@ def corpus(tier):
                                     {'op': 'query'}, {'op': 'remove', 'dir': ['p'], 'keep': False, 'by': 'object'},
                                     {'op': 'gc_now'}, {'op': 'add', 'dir': ['p'], 'mode': 'everyone', 'users': []},
                                     {'op': 'query'}], ['song', 'mp3']))
+    # what start() does, a second time on the same manager (cache and settings read again), then scan, collect, query
+    for initial in ([['p']], [['p'], ['p', 'c']]):
+        for extra in ([], [{'op': 'add', 'dir': ['m'], 'mode': 'everyone', 'users': []}]):
+            out.append(_base(tree, initial, [{'op': 'scan_all', 'wait': True}, {'op': 'query'}] + extra +
+                             [{'op': 'reload'}, {'op': 'query'}, {'op': 'scan_all', 'wait': True}, {'op': 'query'},
+                              {'op': 'gc_now'}, {'op': 'query'}], ['song', 'c', 'one', 'mp3']))
     return out
 
 
@@ -978,6 +987,22 @@ def _run(world: World, plan, restore):
                     note_disk_change(dst)
                     state['dirty'] = True
             sig_steps.append(('rename', bool(scans)))
+        elif op == 'reload':
+            # what start() does, once more on the same manager: cache (empty here) and settings are read again
+            for rec in list(scans):
+                await rec['call'].task
+            reap()
+            call = world.call(alice, label, shares.load_data)
+            await call.task
+            if call.outcome() == 'returned':
+                model.reload([(P(e['dir']), e.get('mode', 'everyone'), list(e.get('users', [])))
+                              for e in plan.get('initial', [])])
+                state['dirty'] = True
+                state['removed_seen'] = True
+                world.probe('reloaded_from_settings')
+            else:
+                world.violate('C07.index', what='load_data_raised', exc=type(call.exception).__name__)
+            sig_steps.append(('reload', call.outcome() == 'returned'))
         elif op == 'gc_now':
             alice.recorder.events.clear()
             gc.collect()
